@@ -459,7 +459,8 @@ class Driver:
                     shutil.rmtree(pth) if os.path.isdir(pth) else os.unlink(pth)
             return None
         if k == "swap":
-            self.doc, self.twin = self.twin, self.doc
+            if self.twin is not None:
+                self.doc, self.twin = self.twin, self.doc
             return None
         if k == "copyopen":
             # open a private copy of a sample by path (so that the source can be removed / overwritten later)
@@ -472,13 +473,14 @@ class Driver:
         try:
             if k == "open":
                 tgt = self.fs.targets[sid]
-                if isinstance(tgt, io.BytesIO):
-                    self.doc = limited(D, io.BytesIO(tgt.getvalue())); buf = True
-                elif o.get("buf") and os.path.isfile(tgt):
-                    self.doc = limited(D, io.BytesIO(open(tgt, "rb").read())); buf = True
-                else:
-                    self.doc = limited(D, tgt); buf = False
+                buf = isinstance(tgt, io.BytesIO) or bool(o.get("buf") and os.path.isfile(tgt))
                 opt_term = "OOpen %d %s" % (sid, "true" if buf else "false")
+                if isinstance(tgt, io.BytesIO):
+                    self.doc = limited(D, io.BytesIO(tgt.getvalue()))
+                elif buf:
+                    self.doc = limited(D, io.BytesIO(open(tgt, "rb").read()))
+                else:
+                    self.doc = limited(D, tgt)
             elif k == "new":
                 tgt = self.fs.targets[sid]
                 raw = dict((n, b) for n, _, b in read_zip(tgt))["mimetype"].decode()
@@ -538,7 +540,22 @@ class Driver:
             elif k == "save":
                 pk = o.get("packaging", "zip"); pretty = o.get("pretty")
                 eff_pretty = (pk in ("folder", "xml")) if pretty is None else bool(pretty)
-                if o.get("target") == "buf":
+                reuse = o.get("reuse")
+                if reuse is not None and not (0 <= reuse < len(self.saved) and self.saved[reuse][1] == pk):
+                    reuse = None
+                if reuse is not None and pk == "folder" and self.doc.container.path is not None \
+                        and str(self.doc.container.path) == str(self.saved[reuse][0]):
+                    reuse = None      # in-place folder save: outcome depends on the clock (one-second time stamps)
+                if reuse is not None and pk == "xml" and isinstance(self.saved[reuse][0], io.BytesIO):
+                    reuse = None      # flat XML is written at the buffer's current position: a reused BytesIO holds two documents (notes/C03.md)
+                if reuse is not None:
+                    # the same target object / path as an earlier save of this history
+                    tgt0, _, arg0 = self.saved[reuse]
+                    if isinstance(tgt0, io.BytesIO):
+                        sid = self.fs.id_of(("buf", id(tgt0)), tgt0); arg = tgt0; tt = "TBuf %d" % sid
+                    else:
+                        sid = self.fs.id_of(tgt0); arg = arg0; tt = "TPath %d" % sid
+                elif o.get("target") == "buf":
                     tgt = io.BytesIO(); sid = self.fs.id_of(("buf", id(tgt)), tgt); arg = tgt; tt = "TBuf %d" % sid
                     self._keep = getattr(self, "_keep", []) + [tgt]
                 elif o.get("target") == "self":
@@ -551,7 +568,7 @@ class Driver:
                 ids.append(sid)
                 kw = {} if pretty is None else dict(pretty=pretty)
                 limited(self.doc.save, arg, packaging=pk, **kw)
-                self.saved.append((self.fs.targets[sid], pk))
+                self.saved.append((self.fs.targets[sid], pk, arg))
                 o["saved_index"] = len(self.saved) - 1
             elif k == "clone":
                 opt_term = "OClone"
@@ -658,6 +675,18 @@ def templates(repo):
 
 # ------------------------------------------------------------------ history generation (shared by C03 / C04 / C10 / C11)
 POOL = ["\x89PNG-one", "GIF89a-two", "third blob \x00\x01\x02", ""]
+BIG = "\x00GEN:%d:%d"      # expanded by expand(): incompressible content of the given size (keeps replay files small)
+
+
+def expand(v):
+    """str payload of an op -> bytes"""
+    if isinstance(v, str):
+        if v.startswith("\x00GEN:"):
+            import random
+            _, seed, n = v.split(":")
+            return random.Random(int(seed)).randbytes(int(n))
+        return v.encode("latin-1")
+    return v
 
 
 def gen_history(rng, starts, weights, nsteps):
@@ -683,7 +712,8 @@ def resolve(drv, o, rng_seed):
     free = [n for n in names if n not in ("mimetype", "META-INF/manifest.xml") and not is_xml_name(n) and not n.endswith("/")]
     xmls = [n for n in names if is_xml_name(n) and n != "META-INF/manifest.xml"]
     if k == "addfile":
-        return [dict(op="addfile", content=rng.choice(POOL), ext=rng.choice([".png", ".png", ".jpg", ".bin", "", ".PNG"]),
+        content = rng.choice(POOL) if rng.random() < 0.8 else BIG % (rng.randrange(3), rng.choice([3000, 20000]))
+        return [dict(op="addfile", content=content, ext=rng.choice([".png", ".png", ".jpg", ".bin", "", ".PNG"]),
                      filelike=rng.random() < 0.35)]
     if k == "frame":
         c = rng.choice(POOL); ext = rng.choice([".png", ".jpg"])
@@ -733,7 +763,23 @@ def resolve(drv, o, rng_seed):
         pk = rng.choice(o.get("packagings") or ["zip", "zip", "zip", "folder"])
         tgt = "buf" if (pk != "folder" and rng.random() < 0.5) else "path"
         pretty = rng.choice(o.get("pretties") or [False, False, None, True])
-        return [dict(op="save", packaging=pk, target=tgt, pretty=pretty)]
+        c = dict(op="save", packaging=pk, target=tgt, pretty=pretty)
+        # repeated saves into the same target object / path of an earlier save (buffer, file, folder)
+        same = [i for i, sv in enumerate(drv.saved) if sv[1] == pk]
+        if same and rng.random() < 0.4:
+            c["reuse"] = rng.choice(same)
+        return [c]
+    if k == "shrink":
+        # make the document smaller: drop the biggest removable part, or clear the body
+        c = drv.doc.container if drv.doc is not None else None
+        if c is None:
+            return []
+        sizes = [(len(drv.part_bytes_now(n) or b""), n) for n in free]
+        if sizes and rng.random() < 0.7:
+            return [dict(op="del", name=max(sizes)[1])]
+        return [dict(op="edit", name="content.xml", how="clear", arg=None)]
+    if k == "grow":
+        return [dict(op="addfile", content=BIG % (rng.randrange(5), rng.choice([5000, 40000])), ext=".bin", filelike=rng.random() < 0.5)]
     if k == "saveself":
         c = drv.doc.container if drv.doc is not None else None
         if c is None or c.path is None or c._Container__packaging != "zip" or not str(c.path).startswith(str(drv.work)):
@@ -775,12 +821,11 @@ def run_history(drv, hist, seed):
             c = dict(c)
             if c.get("use_returned") and last_returned:
                 c["arg"] = last_returned
-            if "content" in c and isinstance(c["content"], str):
-                c_run = dict(c, content=c["content"].encode("latin-1"))
-            elif "data" in c and isinstance(c["data"], str):
-                c_run = dict(c, data=c["data"].encode("latin-1"))
-            else:
-                c_run = dict(c)
+            c_run = dict(c)
+            if isinstance(c.get("content"), str):
+                c_run["content"] = expand(c["content"])
+            if isinstance(c.get("data"), str):
+                c_run["data"] = expand(c["data"])
             r = drv.apply(c_run)
             if r is None:
                 pending.append(c); continue
@@ -838,10 +883,10 @@ def run_concrete(drv, ops):
             c_run["src"] = fix_src(c_run["src"])
         if c_run.get("use_returned") and last_returned:
             c_run["name" if c_run["op"] == "del" else "arg"] = last_returned
-        if "content" in c_run and isinstance(c_run["content"], str):
-            c_run["content"] = c_run["content"].encode("latin-1")
-        if "data" in c_run and isinstance(c_run["data"], str):
-            c_run["data"] = c_run["data"].encode("latin-1")
+        if isinstance(c_run.get("content"), str):
+            c_run["content"] = expand(c_run["content"])
+        if isinstance(c_run.get("data"), str):
+            c_run["data"] = expand(c_run["data"])
         r = drv.apply(c_run)
         if c_run.get("returned"):
             last_returned = c_run["returned"]
